@@ -190,6 +190,17 @@ func loadProofsRule(x *Ctx, rule string) {
 			detail += "an iteration does not store GetDelegation(recv.proof[i]) at index i of the result:\n" + renderPaths([]paths.VPath{v}, 1)
 		}
 	}
+	if !okStore {
+		// idiom B: the result is built by appending exactly the loaded delegation on every iteration to a
+		// slice that is empty before the loop (element i of the result is then the delegation of proof i)
+		if okB, dB := loadProofsAppendIdiom(x, lp, l, lps, get); okB {
+			x.C.Obl(rule, "store-at-index:"+load.ShortName(lp), x.pos(lp), "each iteration appends the loaded delegation to the (initially empty) result, so res[i] is the delegation of proof i", true, "")
+			x.C.Obl(rule, "returns-result:"+load.ShortName(lp), x.pos(lp), "success returns the slice the delegations were appended to", true, "")
+			return
+		} else {
+			detail += dB
+		}
+	}
 	x.C.Obl(rule, "store-at-index:"+load.ShortName(lp), x.pos(lp), "each iteration stores the loaded delegation at res[i] with the same i", okStore, detail)
 	// the returned slice is that result, sized len(recv.proof)
 	sel, _, _ := x.E.Select(lp, paths.WantSuccess)
@@ -203,6 +214,43 @@ func loadProofsRule(x *Ctx, rule string) {
 		}
 	}
 	x.C.Obl(rule, "returns-result:"+load.ShortName(lp), x.pos(lp), "success returns the slice made with len(recv.proof) into which the delegations were stored", okRet, detail)
+}
+
+// loadProofsAppendIdiom: every success path returns the header phi R of the loop, R is nil or an empty
+// make before the loop, and every latch path carries R' = append(R, GetDelegation(proof[i])#0).
+func loadProofsAppendIdiom(x *Ctx, lp *ssa.Function, l *paths.Loop, lps []paths.VPath, get string) (bool, string) {
+	sel, _, _ := x.E.Select(lp, paths.WantSuccess)
+	if len(sel) == 0 {
+		return false, "no success path\n"
+	}
+	var phi *ssa.Phi
+	for _, v := range sel {
+		r := v.Results()[0]
+		ph, ok := r.Val.(*ssa.Phi)
+		if r.Op != "loopphi" || !ok || ph.Block() != l.Header || (phi != nil && phi != ph) {
+			return false, "success returns " + r.String() + ", not the slice carried by the loop\n"
+		}
+		phi = ph
+		init := r.Args[0]
+		empty := init != nil && (init.IsNil() || init.Op == "make" && len(init.Args) > 0 && init.Args[0].IsConst("0") ||
+			init.Op == "slice" && strings.Contains(init.String(), "const(0)"))
+		if !empty {
+			return false, "the result is not empty before the loop: " + init.String() + "\n"
+		}
+	}
+	self := paths.DetachedTerm(lp, phi).String()
+	for _, v := range lps {
+		nv := v.LatchValue(phi)
+		if nv == nil || nv.Op != "call" || nv.Name != "builtin.append" || len(nv.Args) != 2 || nv.Args[0].String() != self ||
+			nv.Args[1].String() != "["+get+"#0]" {
+			got := "?"
+			if nv != nil {
+				got = nv.String()
+			}
+			return false, "an iteration carries " + got + " instead of append(result, GetDelegation(recv.proof[i]))\n"
+		}
+	}
+	return len(lps) > 0, ""
 }
 
 // didComparable: did.DID is a comparable struct so == compares all fields.
